@@ -195,7 +195,15 @@ def make_cfg_arg(built, sk, dotted, arg, tmp):
     import cincoconfig as cc
     if not arg["schema_same"]:
         s = cc.Schema()
-        s.zzz = cc.IntField(default=1)
+        sf0 = find_sf(sk, dotted)
+        keys = [k for k, _ in (sf0 or {}).get("schema", {}).get("fields", [])]
+        if keys and len(dotted) % 2 == 0:
+            # a look-alike: another schema that happens to declare the same names (without any of the constraints)
+            from cincoconfig.core import AnyField
+            for k in keys:
+                s._add_field(k, AnyField())
+        else:
+            s.zzz = cc.IntField(default=1)
         return s()
     sf = find_sf(sk, dotted)
     obj = built.real_for[id(sf)]
